@@ -35,6 +35,7 @@ type scenario struct {
 	Targets    []string          `json:"targets"`     // relative paths the oracle watches
 	ExpectFail bool              `json:"expect_fail"` // the fault-free run has to report an error (rule 5)
 	RelCwd     bool              `json:"relative_paths"`
+	Symlinks   map[string]string `json:"symlinks"`   // relative link path -> relative target, created after Files
 	NoFaults   bool              `json:"no_faults"` // corpus scenarios: fault-free run only (the formatter is the subject, not the file operations)
 }
 
@@ -116,6 +117,19 @@ func scenarios(thorough bool) []*scenario {
 			compileScenario("missing-import", schemaImport, prior, true),
 			compileScenario("unreadable-input/nonexistent", "", prior, true),
 		)
+		if prior == "existing" {
+			// -o is a symbolic link to the previously generated file
+			for _, in := range []struct {
+				class, schema string
+				fail          bool
+			}{{"valid", schemaValid, false}, {"validation-error", schemaUndefined, true}} {
+				l := compileScenario(in.class+"/output-is-symlink", in.schema, prior, in.fail)
+				delete(l.Files, "out.go")
+				l.Files["gen/real.go"] = previous
+				l.Symlinks = map[string]string{"out.go": "gen/real.go"}
+				out = append(out, l)
+			}
+		}
 		d := compileScenario("unreadable-input/directory", "", prior, true)
 		d.Dirs = []string{"in.bop"}
 		out = append(out, d)
